@@ -502,7 +502,17 @@ def rule_merge(ctx: Ctx):
                 okuses = False
         elif ifs and any(u is x for x in ast.walk(ifs[-1].test)):
             i = ifs[-1]
-            if not (all(isinstance(s, ast.Return) for s in i.body) and not i.orelse):
+            pos = isinstance(i.test, ast.Name)
+            neg = isinstance(i.test, ast.UnaryOp) and isinstance(i.test.op, ast.Not) and isinstance(i.test.operand, ast.Name)
+            sel = (pos or neg) and len(i.body) == 1 and len(i.orelse) == 1 and all(isinstance(s, ast.Assign) and isinstance(s.targets[0], ast.Name) for s in i.body + i.orelse) \
+                and norm(i.body[0].targets[0]) == norm(i.orelse[0].targets[0])
+            if sel:
+                t_true, t_false = (i.body[0].value, i.orelse[0].value) if pos else (i.orelse[0].value, i.body[0].value)
+                if isinstance(t_true, ast.Name) and t_true.id == sn and norm(t_false) == f"{sn}.copy()":
+                    target_var = norm(i.body[0].targets[0])
+                else:
+                    okuses = False
+            elif not (all(isinstance(s, ast.Return) for s in i.body) and not i.orelse):
                 okuses = False
         else:
             okuses = False
